@@ -769,11 +769,8 @@ def handle_end_progs(state: TokenizerState) -> Iterator[TokenInfo]:
     elif state.in_fstring() or state.in_colon():
         # neither a brace nor the closing quote on the rest of a line that the literal cannot run past
         raise TokenError("unterminated f-string literal", (state.lnum, state.pos))
-    elif state.pos == 0:  # called at start of the line
-        state.end_progs[-1].join_line(state)
-        state.pos = state.max
-    # else:
-    #     raise TokenError(f"Invalid string quotes at {state.pos} in {state.line}", (state.lnum, state.pos))
+    else:
+        raise TokenError(f"unterminated string literal (detected at line {state.lnum})", state.end_progs[-1].start)
 
 
 _NOT_IN_LOGICAL_LINE: Final = {Token.NL, Token.COMMENT, Token.WS, Token.INDENT, Token.DEDENT}
